@@ -67,6 +67,9 @@ BOXES = [
     [[0.0, 1.0]], [[-1.5, 2.25]], [[-7.0, -3.0]], [[1e6, 1e6 + 3.0]], [[-1e-6, 1e-6]], [[0.1, 0.7]],
     [[0.0, 1.0], [0.0, 1.0]], [[-2.0, 3.0], [5.0, 5.5]], [[-1e3, 1e3], [-1e-3, 1e-3]],
     [[0.0, 1.0], [-1.0, 0.0], [10.0, 12.0]], [[-3.3, 4.7], [0.01, 0.02], [-9e5, 9e5]],
+    # decimal bounds on both sides of zero: lo + (hi - lo) != hi in floating point, so boundaries rebuilt from a stored width
+    # (instead of the parent's own bounds) miss the outer face by an ulp
+    [[-0.4, 1.0]], [[-0.1, 0.3]], [[-1.3, 2.0], [-1.1, 3.3]], [[-0.4, 1.0], [-0.1, 0.3], [-1.3, 2.0]],
 ]
 
 
@@ -88,6 +91,12 @@ def random_part_cfgs(tier, base_id=200000):
                 lo = [rnd.uniform(-100, 100) for _ in range(D)] if rep >= 2 and rep % 3 == 0 else None
                 b = box if lo is None else [[lo[x], lo[x] + abs(rnd.gauss(0, 10)) + 1e-3] for x in range(D)]
                 cfgs.append({"id": i, "kind": kind, "K": K, "D": D, "box": b, "seed": rnd.randrange(1 << 30), "nops": rnd.randint(4, 14), "maxcells": 160 if kind != "dbin" else 220, "force_endpoints": force, "p_deepen": rnd.choice([0.1, 0.3, 0.6])})
+    # random decimal boxes [-a, b] around zero (both tiers)
+    for (kind, K) in A.PART_KINDS:
+        for D in ((1, 2) if tier == "quick" else (1, 1, 2, 2, 3)):
+            i += 1
+            b = [[-round(rnd.uniform(0.05, 5), rnd.choice([1, 2])), round(rnd.uniform(0.05, 5), rnd.choice([1, 2]))] for _ in range(D)]
+            cfgs.append({"id": i, "kind": kind, "K": K, "D": D, "box": b, "seed": rnd.randrange(1 << 30), "nops": rnd.randint(4, 10), "maxcells": 120, "force_endpoints": 0.0, "p_deepen": 0.3})
     # domains written as [[lo, hi]] * d (the inner list is one object): a copy that keeps the aliasing must not be written in place
     for (kind, K) in A.PART_KINDS:
         for D in (2, 3):
